@@ -211,7 +211,8 @@ def main_check(prop, tier, seed, replay=None):
   for w in agg['witnesses']:
     by_mech.setdefault(w['mechanism'], []).append(w)
   new = {m: ws for m, ws in by_mech.items() if m not in known}
-  replay_dir = os.path.join(VERIF, 'replays', prop)
+  out_root = os.environ.get('VERIF_OUT', VERIF)
+  replay_dir = os.path.join(out_root, 'replays', prop)
   lines = []
   if not replay:
     for m, ws in sorted(by_mech.items()):
@@ -282,8 +283,8 @@ def main_check(prop, tier, seed, replay=None):
                     'inconclusive' if inconclusive else 'held'),
         'inconclusive_reasons': inconclusive,
     }
-    os.makedirs(os.path.join(VERIF, 'evidence'), exist_ok=True)
-    with open(os.path.join(VERIF, 'evidence', prop + '.json'), 'w') as f:
+    os.makedirs(os.path.join(out_root, 'evidence'), exist_ok=True)
+    with open(os.path.join(out_root, 'evidence', prop + '.json'), 'w') as f:
       json.dump(ev, f, indent=1, default=repr)
 
   for l in lines:
